@@ -206,22 +206,46 @@ def extract_encode(prog, f):
     while aty.get("k") == "ref":
         aty = aty["to"]
     optional = aty.get("k") == "adt" and aty["path"] == "core::option::Option"
-    if len(puts) != (2 if optional else 1):
-        return None, "expected %d put call(s), found %d" % (2 if optional else 1, len(puts))
-    val_put = None
-    for b, t in puts:
-        a = fa.call_args(b)
-        g = libmodel.carrier_of(t.get("rargs") or t.get("cargs"))
-        if g is None or not is_const(a[2]):
-            return None, "put carrier/width not constant"
-        gs = fa.guards(b)
+    def none_guarded(blk):
+        gs = fa.guards(blk)
         isnone = [x for x in gs if x[0].op == "call" and x[0].args[0] == "core::option::Option::<T>::is_none"]
         if not isnone:
             # `let Some(v) = value else { .. }` / `match value { None => .. }`: the discriminant of *value is None (0)
             for x in gs:
                 if x[0].op == "discr" and _is_arg_value(x[0].args[0]) and ((x[1] == "eq" and x[2] == 0) or (x[1] == "ne" and 1 in x[2])):
                     isnone = [(x[0], "eq", 1)]
-        if optional and is_const(a[1]) and isnone and ((isnone[0][1] == "ne" and 0 in isnone[0][2]) or (isnone[0][1] == "eq" and isnone[0][2] == 1)):
+        return bool(isnone) and ((isnone[0][1] == "ne" and 0 in isnone[0][2]) or (isnone[0][1] == "eq" and isnone[0][2] == 1))
+
+    merged = None
+    if optional and len(puts) == 1:
+        # one put of a merged pattern:  let raw = match value { None => INV, Some(v) => quantise(v)? };  put(raw, W)
+        b, t = puts[0]
+        a = fa.call_args(b)
+        ops = merged_operands(fa, a[1])
+        if ops is not None:
+            absent = [(pb, v) for pb, v in ops if is_const(v) and none_guarded(pb)]
+            present = [(pb, v) for pb, v in ops if not (is_const(v) and none_guarded(pb))]
+            if len(absent) == 1 and len(present) == 1 and not none_guarded(present[0][0]):
+                merged = (absent[0], present[0])
+    if merged is None and len(puts) != (2 if optional else 1):
+        return None, "expected %d put call(s), found %d" % (2 if optional else 1, len(puts))
+    val_put = None
+    guard_block = None
+    for b, t in puts:
+        a = fa.call_args(b)
+        g = libmodel.carrier_of(t.get("rargs") or t.get("cargs"))
+        if g is None or not is_const(a[2]):
+            return None, "put carrier/width not constant"
+        if merged is not None:
+            m["inv"] = const_val(merged[0][1])
+            m["inv_carrier"] = g[0]
+            m["inv_W"] = const_val(a[2])
+            a = list(a)
+            a[1] = merged[1][1]
+            guard_block = merged[1][0]
+            val_put = (b, t, a, g)
+            continue
+        if optional and is_const(a[1]) and none_guarded(b):
             m["inv"] = const_val(a[1])
             m["inv_carrier"] = g[0]
             m["inv_W"] = const_val(a[2])
@@ -271,7 +295,7 @@ def extract_encode(prog, f):
         bsub = X.args[2]
         x0 = X.args[1]
         # guarded by Ge(x0, b)
-        facts = [fact_of_guard(gd) for gd in fa.guards(b) if gd[4] == "switch"]
+        facts = [fact_of_guard(gd) for gd in fa.guards(guard_block if guard_block is not None else b) if gd[4] == "switch"]
         guard_ok = any(fc[0] == "Ge" and fc[1] is x0 and (fc[2] is bsub or (fconst(fc[2]) is not None and fconst(fc[2]) == fconst(bsub))) for fc in facts)
         X = x0
     m["c"], m["b"], m["bias_guard"] = c, bsub, guard_ok
@@ -303,6 +327,33 @@ def block_infeasible(fa, b):
             if (g[1] == "eq" and cv != g[2]) or (g[1] == "ne" and cv in g[2]):
                 return True
     return False
+
+
+def merged_operands(fa, x, depth=0):
+    """[(block, value)] for a value merged from several arms: a phi, or the payload of a merged `Ok(..)` / `Some(..)` all of whose arms build
+    that same variant in place (the shape `match .. { A => Ok(a), B => Ok(b) }?` leaves behind)."""
+    if depth > 2:
+        return None
+    if x.op == "phi":
+        out = []
+        for pb, v in fa.phi_operands(x):
+            if v is x:
+                return None
+            sub = merged_operands(fa, v, depth + 1) if v.op == "phi" or (v.op == "field" and v.args[0].op == "downcast") else None
+            out.extend(sub if sub is not None else [(pb, v)])
+        return out
+    if x.op == "field" and x.args[0].op == "downcast" and x.args[0].args[0].op == "phi":
+        k, i = x.args[0].args[1], x.args[1]
+        base = merged_operands(fa, x.args[0].args[0], depth + 1)
+        if base is None:
+            return None
+        out = []
+        for pb, v in base:
+            if not (v.op == "agg" and v.args[1] == k and fa._is_enum_agg(v) and i < len(v.args[3])):
+                return None
+            out.append((pb, v.args[3][i]))
+        return out
+    return None
 
 
 def resolve_const_phi(fa, x):
